@@ -1,6 +1,7 @@
 package main
 
 import (
+	"go/types"
 	"fmt"
 	"math/rand"
 	"os"
@@ -82,6 +83,7 @@ type Shared struct {
 	hpkg    *ssa.Package
 	enumTab map[string]map[int64]string
 	known   *KnownFindings
+	jsonUTE, jType, streamType types.Type
 
 	mu     sync.Mutex
 	cond   *sync.Cond
@@ -320,6 +322,7 @@ func (ex *Exec) runPath(h *Harness, prefix []int32) (reason string) {
 	ex.snaps = nil
 	ex.syncMaps = nil
 	ex.fs = nil
+	ex.streams = nil
 	ex.uuids = nil
 	ex.nuuid = 0
 	ex.onceDone = nil
